@@ -323,6 +323,9 @@ pub fn c04(e: &Entry, payload: &PV, src: Src, out: &Outcome) -> Result<(), Viol>
                                     // the typed reading of the payload is ambiguous here (duplicate keys,
                                     // type-blind payload): the exception cannot be ruled out
                                     None => v.push(p.to_vec()),
+                                    // a tag key that is also a field key makes `p` readable both as the tag
+                                    // (a string) and as the field (possibly an enum): not judged (rule 8)
+                                    _ if collision => v.push(p.to_vec()),
                                     _ => {}
                                 }
                             }
